@@ -422,6 +422,7 @@ def DiscOKσ (c : Ctx) (nS pc ix : Nat) (slots astk : List Nat) (stack : List SB
     eg * 2 ≤ nS ∧ ∀ r, delegateOracle c es sg eg ix slots = some r → ∀ g, sg ≤ g → g < eg →
       r.slot (g * 2) = none ∨ (r.slot (g * 2 + 1)).isSome
   | .restore slot => ∀ v, slots[slot]? = some v → v ≤ c.len
+  | .repeatGr _ hi _ rep | .repeatNg _ hi _ rep => hi = none → ∀ v, slots[rep]? = some v → v ≤ c.len
   | _ => True
 
 /-- **when the structured machine is defined**: at every instruction other than `End`, with slot
@@ -453,12 +454,20 @@ theorem C05_sstep_defined (c : Ctx) (prog : List Insn) (nS pc ix : Nat) (slots a
   | repeatGr lo hi next rep =>
     simp only [SlotsOK] at hs
     obtain ⟨v, hv⟩ := hget rep hs
-    simp only [hs, ↓reduceIte, hv]
+    have hb : (hi == none && decide (c.len < v)) = false := by
+      cases hi with
+      | none => have := hd rfl v hv; simp; omega
+      | some x => simp
+    simp only [hs, ↓reduceIte, hv, hb, Bool.false_eq_true]
     split <;> (try split) <;> rfl
   | repeatNg lo hi next rep =>
     simp only [SlotsOK] at hs
     obtain ⟨v, hv⟩ := hget rep hs
-    simp only [hs, ↓reduceIte, hv]
+    have hb : (hi == none && decide (c.len < v)) = false := by
+      cases hi with
+      | none => have := hd rfl v hv; simp; omega
+      | some x => simp
+    simp only [hs, ↓reduceIte, hv, hb, Bool.false_eq_true]
     split <;> (try split) <;> rfl
   | repeatEpsGr lo next rep check =>
     simp only [SlotsOK] at hs
